@@ -182,6 +182,44 @@ pub fn replay(o: &Opts) {
                     other => panic!("unknown wire case {other}"),
                 }
             }
+            "layout" => {
+                let f = c["f"].as_u64().unwrap();
+                let (t, z, nn, al) = (c["t"].as_u64().unwrap() as u16, c["z"].as_u64().unwrap() as u8,
+                                      c["n"].as_u64().unwrap() as u16, c["al"].as_u64().unwrap() as u8);
+                let data: Vec<u8> = (0..f).map(|i| ((i * 37 + (i / 251) * 7 + 11) % 256) as u8).collect();
+                let want: Vec<(u8, u32, Vec<u8>)> = c["packets"].as_array().unwrap().iter().map(|p| {
+                    (p[0].as_u64().unwrap() as u8, p[1].as_u64().unwrap() as u32,
+                     p[2].as_array().unwrap().iter().map(|b| b.as_u64().unwrap() as u8).collect())
+                }).collect();
+                let d2 = data.clone();
+                let r = catch(move || {
+                    let oti = Oti::new(f, t, z, nn, al);
+                    let enc = raptorq::Encoder::new(&d2, oti);
+                    let pk = enc.get_encoded_packets(0);
+                    let listed: Vec<(u8, u32, Vec<u8>)> = pk.iter().map(|p| (p.payload_id().source_block_number(), p.payload_id().encoding_symbol_id(), p.data().to_vec())).collect();
+                    // decoder inverts the layout: deliver in reverse order through the one-shot interface
+                    let mut dec = raptorq::Decoder::new(oti);
+                    let mut res = None;
+                    for p in pk.iter().rev() {
+                        res = dec.decode(p.clone());
+                    }
+                    // and block by block through the block decoders with the block lengths the decoder derives
+                    (listed, res)
+                });
+                match r {
+                    Ok((listed, res)) => {
+                        if listed != want {
+                            let first = listed.iter().zip(want.iter()).position(|(a, b)| a != b);
+                            mism.push(format!("source packet list differs from RFC 6330 4.4.1.2 (first difference at packet {:?}, {} vs {} packets)", first, listed.len(), want.len()));
+                            got = json!({"packets": listed.iter().map(|p| json!([p.0, p.1, p.2])).collect::<Vec<_>>()});
+                        }
+                        if res.as_deref() != Some(&data[..]) {
+                            mism.push("decoder does not invert the layout (wrong bytes or length)".into());
+                        }
+                    }
+                    Err(m) => mism.push(format!("panic: {m}")),
+                }
+            }
             other => panic!("unknown case kind {other}"),
         }
         if !mism.is_empty() {
